@@ -233,6 +233,14 @@ def run_impl(case):
     obs['_unitless'] = _try(lambda: _hist(em.get_data_unitless(q)))
     obs['_deserialized'] = _try(lambda: _hist(em.get_data_deserialized()))
     obs['_pts_from_ts'] = _try(lambda: _pts(path_timeseries_from_embedded_timeseries(em.get_timeseries())))
+    # the conversion must leave the embedded timeseries it is given intact (it is used again)
+    def _reuse():
+        import copy
+        ts = em.get_timeseries()
+        before = copy.deepcopy(ts)
+        path_timeseries_from_embedded_timeseries(ts)
+        return ts == before
+    obs['_ts_intact_after_conversion'] = _try(_reuse)
     obs['_data_again'] = _hist(em.get_data())       # the accessors must not change the saved data
     return obs
 
@@ -437,6 +445,10 @@ def oracle(case, impl):
     if impl['_deserialized'] != {'ok': want}:
         fails.append(f'saved-data: get_data_deserialized() = {_short(impl["_deserialized"])}')
     _check_views('', hist, impl['timeseries'], impl['pathTimeseries'], fails)
+    if 'ok' in impl['timeseries'] and impl.get('_ts_intact_after_conversion') not in ({'ok': True}, None) \
+            and 'ok' in impl.get('_ts_intact_after_conversion', {}):
+        fails.append('timeseries-changed: converting an embedded timeseries to a path timeseries modified the '
+                     'embedded timeseries')
     if 'ok' in impl['timeseries'] and impl['_pts_from_ts'] != impl['pathTimeseries']:
         fails.append('path-timeseries: from_data differs from from_embedded_timeseries(timeseries)')
     # ---- query
